@@ -75,7 +75,7 @@ def _kw(ch: core.Chooser) -> dict:
 
 OPS = ["add", "sub", "mul", "pow", "derivative", "gradient", "hessian", "call_full", "call_partial", "call_poly", "getitem", "align", "clean", "pickle",
        "lt", "eq_cmp", "lead_exponent", "lead_coefficient", "argmax", "maximum", "str", "repr", "neg", "sum", "reshape", "concat", "where", "polynomial",
-       "isfinite", "dict_ctor", "noname_ctor", "const_tonumpy", "pow_by_poly", "call_cancelled", "symbols_one", "item_overwritten", "join_monomials"]
+       "isfinite", "dict_ctor", "noname_ctor", "const_tonumpy", "pow_by_poly", "call_cancelled", "symbols_one", "item_overwritten", "join_monomials", "monomial_default"]
 
 
 def _gen_op(ch: core.Chooser, nslots: int, names: List[str]) -> dict:
@@ -347,7 +347,8 @@ class Exec:
             return n.isfinite(a + bad)
         if fn == "dict_ctor":
             # caller-ordered terms, an all-zero non-constant term of another type first
-            items = [((40,) + (0,) * (len(a.names) - 1), numpy.zeros(a.shape, dtype=int))]  # (an exponent no operand reaches)
+            wider = float if a.dtype.kind in "iub" else complex  # (its type decides the default dtype whether or not the term survives)
+            items = [((40,) + (0,) * (len(a.names) - 1), numpy.zeros(a.shape, dtype=wider if node["ins"][1] % 2 else int))]  # (an exponent no operand reaches)
             items += [(tuple(int(v) for v in e), numpy.asarray(c)) for e, c in list(zip(a.exponents.tolist(), a.coefficients))[::-1] if tuple(e) != items[0][0]]
             return n.polynomial(dict(items), names=a.names)
         if fn == "noname_ctor":
@@ -389,6 +390,9 @@ class Exec:
             if how == "concatenate":
                 return n.concatenate([n.atleast_1d(x) for x in parts])
             return getattr(n, how)(parts)
+        if fn == "monomial_default":
+            # construction of the monomial basis with its documented defaults: no option is an argument of it
+            return n.monomial(node["ins"][0] % 3 + 2, dimensions=tuple(self.plan["names"]))
         if fn == "symbols_one":
             return n.symbols(node["spec"])
         if fn == "item_overwritten":
